@@ -2,6 +2,6 @@ CONSTANTS
   NAddr = 200
 INIT Init
 NEXT Next
-INVARIANTS C20_SingleMemberAddr C20_DecodesToSameAddress
+INVARIANTS C20_SingleMemberAddr C20_DecodesToSameAddress C20_DecodedHandleEncodesAlike
 POSTCONDITION Emit
 CHECK_DEADLOCK FALSE
